@@ -141,6 +141,7 @@ NextBody(code, body) == IF KeepsBody(code) THEN body ELSE <<>>
 \*   redirect with autocorrect_location_header=False doesn't have a host, so use the request's host."
 Documented(loc) == loc.form \in {"abs", "path"}
 Target(loc, cur) == IF loc.form = "abs" THEN [sch |-> loc.sch, host |-> loc.host, path |-> loc.path, qs |-> loc.qs]
+                    ELSE IF loc.form = "net" THEN [sch |-> cur.sch, host |-> loc.host, path |-> loc.path, qs |-> loc.qs]
                     ELSE [sch |-> cur.sch, host |-> cur.host, path |-> loc.path, qs |-> loc.qs]
 \* Client: "allow_subdomain_redirects: Allow requests to follow redirects to subdomains. Enable this if the application handles
 \*   subdomains and redirects between them."  resolve_redirect raises RuntimeError("Following subdomain redirects is not
